@@ -43,7 +43,7 @@ ANCHORS = ['pfhedge.nn.modules.loss:HedgeLoss.cash',
            'pfhedge._utils.operations:ensemble_mean']
 PYTEST_WORKLOAD = True  # thorough tier also runs /repo/tests with these passive monitors attached (DESIGN.md 2.7)
 DECIDING = ["cash.equivalent", "cash.bounds", "cash.qcvar_is_minus_risk", "price.is_minus_cash", "price.shift_equivariant", "price.entropic_equals_loss"]
-REQUIRED_BRANCHES = ["cash.default_search", "cash.closed_form", "cash.target_tensor", "cash.multi_column", "cash.constant_sample",
+REQUIRED_BRANCHES = ["cash.erm_large_ax", "cash.default_search", "cash.closed_form", "cash.target_tensor", "cash.multi_column", "cash.constant_sample",
                      "price.clauses", "price.n_times>1"]
 
 _CTX = None
@@ -235,7 +235,8 @@ def setup(ctx):
 def make_crit(rng):
     kind = pick(rng, ["erm", "el", "iso", "es", "qcvar", "user", "user", "iso"])
     if kind == "erm":
-        return EntropicRiskMeasure(float(pick(rng, [0.5, 1.0, 3.0]))), kind
+        # incl. large risk aversion: the entropic risk measure (and its cash amount) must stay finite for any finite input
+        return EntropicRiskMeasure(float(pick(rng, [0.5, 1.0, 3.0, 10.0, 50.0]))), kind
     if kind == "el":
         return EntropicLoss(float(pick(rng, [0.5, 1.0, 2.0]))), kind
     if kind == "iso":
@@ -258,6 +259,9 @@ def drv_cash(ctx, k, rng):
         x = x.clamp(-8, 8)
     if kind == "iso":
         x = x.abs() + 0.2
+    if kind == "erm" and rng.random() < 0.4:
+        x = x * 10.0  # a * |x| well beyond the float32 exp range
+        ctx.branch("cash.erm_large_ax")
     tk = pick(rng, ["none", "none", "scalar", "tensor", "shift"])
     args = (x,)
     if tk == "scalar":
